@@ -162,19 +162,53 @@ def g_usage(c, hint=None):
         rc, out, err = c.run(argv, stdin=stdin)
         if rc != 0 or err:
             bad.append("`xt %s` is valid but exit=%d stderr=%r" % (" ".join(argv), rc, err[:60]))
+    # standard output on a terminal: MessagePack is refused - a valid command line, so exit 1 with one message, no
+    # usage text, nothing on the terminal; text formats go through
+    try:
+        import pty
+        import select
+        for argv, want_rc in ((["-t", "msgpack", "small.json"], 1), (["-tm", "small.json"], 1), (["-t", "m", "-f", "json", "small.json"], 1), (["-t", "json", "small.json"], 0)):
+            master, slave = pty.openpty()
+            p = subprocess.Popen([c.bin] + argv, stdin=subprocess.DEVNULL, stdout=slave, stderr=subprocess.PIPE, cwd=c.dir)
+            os.close(slave)
+            err = p.communicate(timeout=20)[1]
+            out = b""
+            while select.select([master], [], [], 0.2)[0]:
+                try:
+                    chunk = os.read(master, 65536)
+                except OSError:
+                    break
+                if not chunk:
+                    break
+                out += chunk
+            os.close(master)
+            if want_rc == 1 and (p.returncode != 1 or out or not err.startswith(b"xt error") or b"Usage:" in err or err.count(b"\n") != 1):
+                bad.append("`xt %s` with stdout on a terminal: a valid command line that is refused must exit 1 with one 'xt error' line, no usage text, nothing on the terminal: exit=%d tty=%r stderr=%r"
+                           % (" ".join(argv), p.returncode, out[:40], err[:120]))
+            if want_rc == 0 and (p.returncode != 0 or err or not out):
+                bad.append("`xt %s` with stdout on a terminal should just print: exit=%d stderr=%r" % (" ".join(argv), p.returncode, err[:80]))
+    except (ImportError, OSError):
+        pass
     return bad
 
 
 def g_exit1(c, hint=None):
     bad = []
     for argv, named in ((["missing.json"], b"missing.json"), (["doc.json", "missing.json"], b"missing.json"), (["bad.json"], b"bad.json"),
-                        (["doc.yaml", "bad.json"], b"bad.json"), ([".."], b".."), (["-t", "toml", "doc.json", "doc.json"], b"doc.json"),
+                        (["doc.yaml", "bad.json"], b"bad.json"), ([".."], b".."), (["-t", "toml", "doc.json", "doc.json"], b"doc.json"), (["-t", "toml", "small.json", "small.json"], b"small.json"),
+                        (["-t", "toml", "small.json", "doc.toml"], b"doc.toml"),
                         (["-f", "msgpack", ".."], b".."), (["-f", "yaml", "."], b".")):
         rc, out, err = c.run(argv)
         if rc != 1 or not err.startswith(b"xt error in " + named):
             bad.append("`xt %s` should exit 1 with 'xt error in %s: ...': exit=%d stderr=%r" % (" ".join(argv), named.decode(), rc, err[:80]))
         if err.count(b"\n") != 1:
             bad.append("`xt %s`: exactly one error line expected: %r" % (" ".join(argv), err[:120]))
+    # a TOML target takes exactly one document for the whole run: the second input is refused, the first one's output stands
+    one = c.run(["-t", "toml", "small.json"])[1]
+    for second in ("small.json", "doc.toml", "-"):
+        rc, out, err = c.run(["-t", "toml", "small.json", second], stdin=b"x = 1\n")
+        if rc != 1 or out != one:
+            bad.append("`xt -t toml small.json %s`: the second input must be refused (exit 1) with only the first document on stdout: exit=%d stdout=%r" % (second, rc, out[:80]))
     rc, out, err = c.run(["-", "-"], stdin=b"1")
     if rc != 1 or not err.startswith(b"xt error"):
         bad.append("`xt - -`: %r" % ((rc, err),))
